@@ -1,6 +1,7 @@
 package props
 
 import (
+	"strconv"
 	"strings"
 
 	"verif/harness/model"
@@ -280,4 +281,15 @@ func mergeChangesLast(f model.Forest) bool {
 		rec(r)
 	}
 	return found
+}
+
+// uniqRoots makes root names distinct (and keeps them valid path elements of moderate length).
+func uniqRoots(f model.Forest) {
+	for i, r := range f {
+		n := []rune(r.Name)
+		if len(n) > 40 {
+			n = n[:40]
+		}
+		r.Name = string(rune('A'+i%26)) + strconv.Itoa(i) + string(n)
+	}
 }
